@@ -7,7 +7,7 @@ import CaddyModel.C05.Model
 namespace CaddyModel.C05
 
 /-- GET a.test /a, no X-T header -/
-def wReq : Req := ⟨0, 0, 1, 0, [], none, none⟩
+def wReq : Req := ⟨0, 0, 1, 0, [], none, none, 1, []⟩
 
 /-- A subroute WITH error routes (handler 1 passes; its error route runs handler 9), followed by a
     route whose handler 3 fails with 404.  The failure happens BEHIND the subroute. -/
@@ -29,6 +29,13 @@ def wStaleRoutes : List Route :=
   [ .mk 0 [] [.sub [.mk 0 [] [.fail 1 404] false] true [.mk 0 [] [.fail 2 0] false]] false ]
 
 def wStaleErrs : List Route := [ .mk 0 [] [.pass 3, .answer .errCode] false ]
+
+/-- A subroute with error routes (handler 7) around a subroute whose handler 1 fails and whose own
+    error routes rewrite to /b (handler 2) and fail again (handler 3). -/
+def wStaleUriRoutes : List Route :=
+  [ .mk 0 [] [.sub [.mk 0 [] [.sub [.mk 0 [] [.fail 1 500] false] true
+                                     [.mk 0 [] [.rewrite 2 3, .fail 3 404] false]] false]
+              true [.mk 0 [] [.pass 7] false]] false ]
 
 /-- the same two matchers in two orders: a host matcher that does not match `wReq`, and an
     error matcher -/
